@@ -129,7 +129,7 @@ def trace_impls(F):
             yield im
 
 
-def run(rec, F, exceptions=None, only_adts=None, only_fields=None):
+def run(rec, F, exceptions=None, only_adts=None, only_fields=None, field_type_re=None):
     exceptions = dict(EXCEPTIONS if exceptions is None else exceptions)
     R = rec.rule("F5.f", "every gc-bearing field of a Trace/TraceRoot ADT is read in trace() and flows to a Trace::trace call")
     bearing = sem.gc_bearing_adts(F)
@@ -193,6 +193,8 @@ def run(rec, F, exceptions=None, only_adts=None, only_fields=None):
         for (variant, fname, fty) in gcf:
             if only_fields is not None and fname not in only_fields:
                 continue
+            if field_type_re is not None and not re.search(field_type_re, fty):
+                continue
             key = (variant, fname)
             inst = "%s.%s%s" % (short, (variant + ".") if variant else "", fname)
             ok = key in traced or (None, fname) in traced and variant is None
@@ -207,7 +209,7 @@ def run(rec, F, exceptions=None, only_adts=None, only_fields=None):
                             "gc-bearing field `%s: %s` of %s is not traced by its %s impl%s" % (
                                 exk[1], fty, short, lastseg(im["trait"]), "" if tr else " (default empty trace body)"),
                             loc=fnloc, fn=tr[0]["path"] if tr else im["self"])
-    if only_adts is not None:
+    if only_adts is not None or field_type_re is not None:
         rec.floor(R, "requested Trace impls", n_impls, 1)
         return
     rec.floor(R, "Trace/TraceRoot impls on local ADTs", n_impls, 190)
